@@ -500,6 +500,60 @@ func init() {
 		return float64(math.Float32frombits(uint32(asInt64(a[0]))))
 	}
 
+	// ---- encoding/binary.Read into a pointer to a fixed-size struct of integers ----
+	intrinsics["encoding/binary.Read"] = func(fr *frame, a []value) value {
+		data := a[2].(iface)
+		pt, ok := data.t.Underlying().(*types.Pointer)
+		if !ok {
+			panic(unsupported("binary.Read into " + data.t.String()))
+		}
+		st, ok := pt.Elem().Underlying().(*types.Struct)
+		if !ok {
+			panic(unsupported("binary.Read into " + data.t.String()))
+		}
+		size := 0
+		var widths []int
+		for i := 0; i < st.NumFields(); i++ {
+			w, _, isInt := intInfo(st.Field(i).Type())
+			if !isInt {
+				panic(unsupported("binary.Read: field type " + st.Field(i).Type().String()))
+			}
+			widths = append(widths, w/8)
+			size += w / 8
+		}
+		big := true
+		if o, ok := a[1].(iface); ok && o.t != nil && strings.Contains(o.t.String(), "little") {
+			big = false
+		}
+		buf := make([]value, size)
+		for i := range buf {
+			buf[i] = cint(0)
+		}
+		modelsUsed["encoding/binary.Read(fixed-size struct) via io.ReadFull"]++
+		readFull := fr.i.prog.ImportedPackage("io").Func("ReadFull")
+		res := callSSA(fr.i, fr, 0, readFull, []value{a[0], buf}, nil).(tuple)
+		if e, ok := res[1].(iface); ok && e.t != nil {
+			return e
+		}
+		cell := data.v.(*value)
+		fields := (*cell).(structure)
+		off := 0
+		for i, nb := range widths {
+			t := toTerm(buf[off], 8)
+			for k := 1; k < nb; k++ {
+				if big {
+					t = mkConcat(t, toTerm(buf[off+k], 8))
+				} else {
+					t = mkConcat(toTerm(buf[off+k], 8), t)
+				}
+			}
+			_, signed, _ := intInfo(st.Field(i).Type())
+			setCell(&fields[i], fromTerm(t, signed))
+			off += nb
+		}
+		return iface{}
+	}
+
 	// ---- easyjson unsafe casts ----
 	intrinsics["github.com/mailru/easyjson/jlexer.bytesToStr"] = func(fr *frame, a []value) value {
 		return bytesToString(a[0].([]value))
